@@ -22,6 +22,7 @@ c01 = {"property": "C01", "title": "json.Marshal is byte-for-byte encoding/json.
 for i, n, ulen, ulen2 in shapes:
     g = {"vfShape": {"all": [i]}, "vfLen": lens(ulen, [0, 1], [0, 1, 2]), "vfLen2": lens(ulen2, [0, 2], [0, 1, 2, 3]), "vfMode": {"quick": [0, 2], "thorough": [0, 1, 2]}, "vfFlags": {"all": [0, 1]}}
     c01["units"].append(unit("H01-" + n, "Marshal/Append/Encoder.Encode(EscapeHTML on|off) == encoding/json, error parity (shape %s)" % n, "vfH_c01_shape", g, ["done"], split={"all": 6}))
+c01["units"].append(unit("H01-writeerr", "Encoder.Encode on a failing writer reports the write error at once and on later calls (shape basic)", "vfH_c01_shape", {"vfShape": {"all": [0]}, "vfLen": {"all": [1]}, "vfLen2": {"all": [0]}, "vfMode": {"all": [3]}, "vfFlags": {"all": [0, 1]}}, ["done"]))
 c01["units"].append(unit("H01-str", "AppendEscape/Escape on every string of the length, EscapeHTML on/off", "vfH_c01_str", {"vfLen": {"quick": "0..3", "thorough": "0..4"}, "vfFlags": {"all": [0, 1]}}, ["done"], split={"all": 4}))
 c01["units"].append(unit("H01-strlong", "strings of 8..26 letters with one (quick) or two arbitrary bytes at arbitrary positions: every residue of the 8-byte escapeIndex scan", "vfH_c01_strlong",
                          {"vfLen": {"quick": [8, 9, 16, 17], "thorough": [8, 9, 10, 15, 16, 17, 18, 24, 25]}, "vfFlags": {"all": [0, 1]}, "vfMode": {"quick": [1], "thorough": [1, 2]}}, ["done"], split={"all": 3}, concret=["github.com/segmentio/encoding/json.escapeIndex"]))
